@@ -8,6 +8,8 @@
 //      (exact basis-enumeration oracle on the re-read dual).
 #include "vx_spx.hpp"
 #include <mpfr.h>
+#include <setjmp.h>
+#include <dirent.h>
 using namespace soplex;
 using namespace vx;
 
@@ -18,6 +20,38 @@ struct NullBuf : std::streambuf { int overflow(int c) override { return c; } };
 static NullBuf g_nullbuf;
 static std::string g_outdir;
 static std::string wfile(const char* ext) { return g_outdir + "/c12-w" + std::to_string((long)getpid()) + ext; }
+
+// GMP raises SIGFPE (then aborts) on an invalid operation such as the conversion of an infinite double.  The literal phases
+// expect thousands of those; they are caught in-process (the interrupted object is abandoned, descriptors it held are closed)
+// so that the worker does not have to be restarted for each of them.  Every other signal is left to the runner.
+static sigjmp_buf g_jb;
+static volatile sig_atomic_t g_armed = 0;
+static void fpe_trap(int) { if(g_armed) { g_armed = 0; siglongjmp(g_jb, 1); } _exit(100 + SIGFPE); }
+static bool guarded(const std::function<void()>& f, int keepfd)
+{
+   struct sigaction sa, old;
+   memset(&sa, 0, sizeof sa);
+   sa.sa_handler = fpe_trap;
+   sa.sa_flags = SA_NODEFER;
+   sigaction(SIGFPE, &sa, &old);
+   volatile bool ok = true;
+   if(sigsetjmp(g_jb, 1) == 0) { g_armed = 1; f(); }
+   else
+   {
+      ok = false;
+      std::vector<int> fds;
+      if(DIR* d = opendir("/proc/self/fd"))
+      {
+         int dfd = dirfd(d);
+         while(struct dirent* e = readdir(d)) { int fd = atoi(e->d_name); if(e->d_name[0] != '.' && fd > 2 && fd != keepfd && fd != dfd) fds.push_back(fd); }
+         closedir(d);
+      }
+      for(int fd : fds) close(fd);
+   }
+   g_armed = 0;
+   sigaction(SIGFPE, &old, 0);
+   return ok;
+}
 
 static const Q& QINF() { static Q q = q_of_double(1e100); return q; }
 
@@ -193,6 +227,7 @@ static uint64_t run_literal(const Lit& L, int ctx, Ctx& c)
 {
    std::string cs = lit_case(L, ctx);
    const char* rd = CTXNAME[ctx];
+   int keepfd = c.sink ? fileno(c.sink) : -1;
    c.count(std::string("lit.cases.") + rd);
    uint64_t h = 17;
    if(ctx == 0)
@@ -204,15 +239,25 @@ static uint64_t run_literal(const Lit& L, int ctx, Ctx& c)
       if(L.neg && L.hasdot && L.mantzero) c.count("lit.class.minus_zero_decimal");
       if(L.hasdot) c.count("lit.class.has_decimal_point");
       Rational r;
-      try
+      std::string exc;
+      bool thrown = false;
+      bool alive = guarded([&]()
       {
-         r = ratFromString(L.s.c_str());
+         try { r = ratFromString(L.s.c_str()); }
+         catch(const std::exception& e) { thrown = true; exc = e.what(); }
+      }, keepfd);
+      if(!alive)
+      {
+         c.count(std::string("lit.") + rd + ".sigfpe");
+         c.violation(std::string("literal-crash:SIGFPE@") + rd + "[" + tag_crash(L) + "]", cs,
+                     "ratFromString(\"" + L.s + "\") raises SIGFPE inside GMP (the process dies unless the signal is handled); the literal denotes " + qshort(L.value));
+         return 4;
       }
-      catch(const std::exception& e)
+      if(thrown)
       {
          c.count(std::string("lit.") + rd + ".rejected");
          c.violation(std::string("literal-rejected:") + rd + "[" + tag_value(L, false) + "]", cs,
-                     "ratFromString(\"" + L.s + "\") throws " + e.what() + "; the literal denotes " + qshort(L.value));
+                     "ratFromString(\"" + L.s + "\") throws " + exc + "; the literal denotes " + qshort(L.value));
          return 3;
       }
       RatVerdict v = judge_raw(r.backend().data(), L.value);
@@ -244,13 +289,26 @@ static uint64_t run_literal(const Lit& L, int ctx, Ctx& c)
    bool mps = (ctx == 2 || ctx == 4), rat = (ctx == 1 || ctx == 2);
    std::string path = wfile(mps ? ".mps" : ".lp");
    write_literal_file(path, mps, L.s);
-   SoPlex B;
+   // the reading object lives on the heap: if GMP raises SIGFPE in the middle of readFile it is abandoned, not destroyed
+   SoPlex* Bp = new SoPlex;
+   SoPlex& B = *Bp;
+   struct Holder { SoPlex* p; NameSet* a; NameSet* b; bool release = true; ~Holder() { if(release) { delete p; delete a; delete b; } } } hold{Bp, new NameSet, new NameSet};
    quiet(B);
    B.setIntParam(SoPlex::READMODE, rat ? SoPlex::READMODE_RATIONAL : SoPlex::READMODE_REAL);
    if(rat) B.setIntParam(SoPlex::SYNCMODE, SoPlex::SYNCMODE_AUTO);
-   NameSet rn, cn;
-   bool ok = B.readFile(path.c_str(), &rn, &cn, nullptr);
+   NameSet& rn = *hold.a;
+   NameSet& cn = *hold.b;
+   bool ok = false;
+   bool alive = guarded([&]() { ok = B.readFile(path.c_str(), &rn, &cn, nullptr); }, keepfd);
    std::string tv = tag_value(L, !rat);
+   if(!alive)
+   {
+      hold.release = false;
+      c.count(std::string("lit.") + rd + ".sigfpe");
+      c.violation(std::string("literal-crash:SIGFPE@") + rd + "[" + tag_crash(L) + "]", cs,
+                  std::string("readFile raises SIGFPE inside GMP on a ") + (mps ? "MPS" : "LP") + " file that contains the literal " + L.s + " (the process dies unless the signal is handled)");
+      return 4;
+   }
    if(!ok)
    {
       c.count(std::string("lit.") + rd + ".rejected");
@@ -379,7 +437,7 @@ struct RTCfg
    int fmt = 0;     // 0 LP, 1 MPS
    int mode = 0;    // 0 real, 1 rational
    int wzo = 0;     // writeZeroObjective
-   int names = 0;   // 0 default names (nullptr), 1 user names
+   int names = 0;   // 0 default names (nullptr), 1 user names (one column and one row name have the full 8 characters), 2 user names of at most 7 characters
    int ints = 0;    // 0 no integer markers, 1 column 0, 2 all columns
    int scale = 0;   // real only: 0 LP not scaled; 1 persistently scaled, unscale=true; 2 persistently scaled, unscale=false
    int vm = 0;      // value map
@@ -407,6 +465,41 @@ struct RTCfg
 
 static const char* UCOL[] = {"xa", "yb_col_2", "zc", "wd", "ve", "uf", "tg", "sh"};
 static const char* UROW[] = {"ra", "rb_row_2", "rc", "rd"};
+static const char* UCOL7[] = {"xa", "yb_col2", "zc", "wd", "ve", "uf", "tg", "sh"};
+static const char* UROW7[] = {"ra", "rb_row2", "rc", "rd"};
+
+// lint of a written MPS file: every blank-separated token of a data line must be an indicator, a known name or a number.
+// Returns the first token that is none of these ("" if the file is clean).
+static std::string mps_lint(const std::string& path, const std::vector<std::string>& cn, const std::vector<std::string>& rn)
+{
+   std::set<std::string> known = {"N", "L", "G", "E", "LO", "UP", "FX", "FR", "MI", "PL", "BV", "LI", "UI", "RHS", "BOUND", "RANGE", "MINIMIZE", "MARK0001", "'MARKER'", "'INTORG'", "'INTEND'"};
+   for(auto& s : cn) known.insert(s);
+   for(auto& s : rn) known.insert(s);
+   std::ifstream in(path);
+   std::string line;
+   while(std::getline(in, line))
+   {
+      if(line.empty() || line[0] != ' ') continue;
+      std::istringstream ls(line);
+      std::string tok;
+      while(ls >> tok)
+      {
+         if(known.count(tok)) continue;
+         char* end = nullptr;
+         strtod(tok.c_str(), &end);
+         bool num = end && *end == 0;
+         if(!num && tok.find('/') != std::string::npos)
+         {
+            // rational "p/q"
+            size_t k = tok.find('/');
+            std::string a = tok.substr(0, k), b = tok.substr(k + 1);
+            num = !a.empty() && !b.empty() && a.find_first_not_of("-0123456789") == std::string::npos && b.find_first_not_of("0123456789") == std::string::npos;
+         }
+         if(!num) return tok;
+      }
+   }
+   return "";
+}
 
 // value maps: structural data (small integers) -> numerically interesting data.  Real mode: the product is formed in double
 // arithmetic and the model is the exact value of the resulting double; rational mode: exact rational factors.
@@ -657,8 +750,8 @@ static uint64_t run_roundtrip(const RTCase& k, Ctx& c)
    if(cfg.ints == 1 && n > 0) isint[0] = true;
    if(cfg.ints == 2) isint.assign(n, true);
    std::vector<std::string> cn(n), rn(m);
-   for(int j = 0; j < n; ++j) cn[j] = cfg.names ? std::string(UCOL[j % 8]) + (j >= 8 ? std::to_string(j) : "") : "x" + std::to_string(j);
-   for(int i = 0; i < m; ++i) rn[i] = cfg.names ? std::string(UROW[i % 4]) + (i >= 4 ? std::to_string(i) : "") : "C" + std::to_string(i);
+   for(int j = 0; j < n; ++j) cn[j] = cfg.names ? std::string((cfg.names == 1 ? UCOL : UCOL7)[j % 8]) : "x" + std::to_string(j);
+   for(int i = 0; i < m; ++i) rn[i] = cfg.names ? std::string((cfg.names == 1 ? UROW : UROW7)[i % 4]) : "C" + std::to_string(i);
    std::string sfx = "@" + cfg.tag();
    c.count("rt.roundtrips");
    c.count("rt.cfg." + cfg.tag());
@@ -672,7 +765,7 @@ static uint64_t run_roundtrip(const RTCase& k, Ctx& c)
    if(anyEmptyCol) c.count("rt.feature.empty_col");
    if(zeroObj) c.count("rt.feature.zero_objective");
    if(cfg.ints) c.count("rt.feature.int_markers");
-   if(cfg.names) c.count("rt.feature.user_names");
+   if(cfg.names) c.count(cfg.names == 1 ? "rt.feature.user_names_8_characters" : "rt.feature.user_names_short");
    if(cfg.wzo) c.count("rt.feature.write_zero_objective");
    if(model.maximize && mps) c.count("rt.feature.mps_max_inverted");
    if(anyRanged && !mps) c.count("rt.feature.lp_ranged_split");
@@ -721,6 +814,21 @@ static uint64_t run_roundtrip(const RTCase& k, Ctx& c)
       return 3;
    }
 
+   if(mps)
+   {
+      // the written text itself: fields of a record must be separated (an 8-character name may not run into the next field)
+      std::string tok = mps_lint(path, cn, rn);
+      if(!tok.empty())
+      {
+         bool merged = false;
+         for(auto& a : cn) if(a.size() == 8 && tok.size() > 8 && tok.compare(0, 8, a) == 0) merged = true;
+         for(auto& a : rn) if(a.size() == 8 && tok.size() > 8 && tok.compare(0, 8, a) == 0) merged = true;
+         c.count("rt.mps_lint_failed");
+         c.violation(std::string("roundtrip:") + (merged ? "mps-fields-not-separated" : "mps-unknown-token") + sfx, cs,
+                     "written MPS file contains the token '" + tok + "'" + (merged ? ": an 8-character name is written without a separator before the next field" : ""));
+         return 8;
+      }
+   }
    // --- object B: read back
    SoPlex B;
    quiet(B);
@@ -832,7 +940,7 @@ static uint64_t run_roundtrip(const RTCase& k, Ctx& c)
       s = rat ? cmp.rat(B.upperRational(j), e.up) : cmp.real(B.upperReal(j), e.up);
       if(!s.empty()) viol("upper-mismatch", bound_tag(e.up) + (e.isint ? ",int" : ""), "upper bound of " + e.name + ": " + s);
       if((biv.pos(j) >= 0) != e.isint)
-         viol("int-marker-mismatch", e.isint ? "lost" : "spurious", "column " + e.name + (e.isint ? " was written as integer and is read as continuous" : " is read as integer"));
+         viol("int-marker-mismatch", e.isint ? "lost" : std::string("spurious") + ((!e.lo.fin() && e.up.fin()) ? ",lower=-inf,finite-upper" : ""), "column " + e.name + (e.isint ? " was written as integer and is read as continuous" : " is read as integer"));
    }
    for(size_t t = 0; t < ex.rows.size(); ++t)
    {
@@ -973,8 +1081,8 @@ static TinyLP wide_lp(uint64_t idx)
    for(int j = 0; j < 7; ++j) { lp.A[0][j] = double(int(idx % 3) - 1); idx /= 3; }
    static const double R1[3][7] = {{1, 0, 2, 0, 0, 0, -1}, {1, 1, 1, 1, 1, 1, 1}, {0, 0, 0, 0, 0, 0, 0}};
    static const double CC[3][7] = {{1, 0, -1, 0, 2, 0, 0}, {1, 2, 3, 4, 5, 6, 7}, {0, 0, 0, 0, 0, 0, 0}};
-   int r1 = idx % 3; idx /= 3;
    int cc = idx % 3; idx /= 3;
+   int r1 = idx % 3; idx /= 3;
    for(int j = 0; j < 7; ++j) { lp.A[1][j] = R1[r1][j]; lp.c[j] = CC[cc][j]; }
    for(int j = 0; j < 7; ++j) { const BoundMenu& b = COLB[j % 5]; lp.lo[j] = b.lo; lp.up[j] = b.up; }
    int rs = idx % 4; idx /= 4;
@@ -984,7 +1092,7 @@ static TinyLP wide_lp(uint64_t idx)
    lp.offset = 0;
    return lp;
 }
-static const uint64_t NWIDE = 2187ULL * 3 * 3 * 4 * 2;
+static const uint64_t NWIDE = 2187ULL * 3 * 3 * 4 * 2;      // thorough; quick uses the first 2187*3 (all row-0 patterns x objective patterns)
 
 // numerics: a fixed 2x2 structure in which one or two slots take every value of a list
 static const double NUMV[] = {0.1, -1.0 / 3.0, 1e-7, 123456.789, 1000000000000001.0, 9.5367431640625e-07, -0.75, 1e20, 3.0000000000000004, 1e-15, 2.5e-16, 65536.000000000015, -1e15, 0.30000000000000004};
@@ -1029,9 +1137,11 @@ int main(int argc, char** argv)
       return replay_case([&](Ctx & c) { replay_one(cs, c); });
    }
    bool thorough = args.tier == "thorough";
-   Report rep(args, "exploration", thorough ? 2700 : 420);
+   Report rep(args, "exploration", thorough ? 3300 : 600);
    RunOpts o = rep.opts();
    o.perturb = {85};
+   std::string only = args.get("only");     // debugging aid: run only the phases whose name contains this text
+   auto want = [&](const std::string & name) { return only.empty() || name.find(only) != std::string::npos; };
 
    // ---------------- (a) literals ----------------
    int L = thorough ? 7 : 6;
@@ -1045,12 +1155,14 @@ int main(int argc, char** argv)
    {
       return [&v](uint64_t idx, uint64_t) { return std::string("@") + CTXNAME[idx % NCTX] + "[" + tag_crash(v[idx / NCTX]) + "]"; };
    };
+   if(want("literals"))
    rep.phase("literals length<=" + std::to_string(L) + " x 5 readers", lits.size() * NCTX, [&](uint64_t idx, int, Ctx & c) -> uint64_t
    {
       return run_literal(lits[idx / NCTX], (int)(idx % NCTX), c);
    }, [&](uint64_t idx, uint64_t) { return lit_case(lits[idx / NCTX], (int)(idx % NCTX)); }, o, litsfx(lits));
    std::vector<Lit> xl;
    exponent_family(xl);
+   if(want("exponent"))
    rep.phase("exponent / long-mantissa family x 5 readers", xl.size() * NCTX, [&](uint64_t idx, int, Ctx & c) -> uint64_t
    {
       return run_literal(xl[idx / NCTX], (int)(idx % NCTX), c);
@@ -1064,10 +1176,11 @@ int main(int argc, char** argv)
    S1.offsets = {0};
    Family S2 = famT(2, 2, {-1, 0, 1}, {-1, 0, 1}, {0, 1, 2, 3, 4}, {0, 1, 2, 3, 4, 5, 6, 7});
    S2.offsets = {0};
-   Family S0 = famT(2, 2, {0, 1, -1}, {0, 1}, {0, 1, 3}, {0, 2, 3, 4});     // quick structural family
+   Family S0 = famT(2, 2, {-1, 0, 1}, {-1, 0, 1}, {0, 1, 3}, {0, 2, 3, 4});     // quick structural family: 3 column types x 4 row types
    S0.offsets = {0};
-   const Family& SF = thorough ? S2 : S1;
-   rep.phase(std::string("round trips: T(2,2) ") + (thorough ? "full menus" : "family Q") + " x fmt x mode x wzo", SF.size(), [&](uint64_t idx, int, Ctx & c) -> uint64_t
+   const Family& SF = thorough ? S2 : S0;
+   if(want("structural"))
+   rep.phase(std::string("round trips structural: T(2,2) ") + (thorough ? "5 column x 8 row types" : "3 column x 4 row types") + " x fmt x mode x wzo", SF.size(), [&](uint64_t idx, int, Ctx & c) -> uint64_t
    {
       RTCase k;
       if(!SF.get(idx, k.base)) return 0;
@@ -1076,14 +1189,14 @@ int main(int argc, char** argv)
       for(int v = 0; v < 8; ++v) { set_sub(v); k.cfg = base8(v); h = h * 31 + run_roundtrip(k, c); }
       return h;
    }, [&](uint64_t idx, uint64_t sub) { RTCase k; SF.get(idx, k.base); k.cfg = base8((int)sub); return rt_case(k); }, o, rtsfx);
-   (void)S0;
 
    // deviation dimensions: names x integer markers (x fmt x mode x wzo) on a smaller complete family, plus value maps
-   Family S3 = famT(2, 2, {0, 1}, {0, 1}, {0, 1, 2, 3, 4}, {0, 2, 3, 4});
+   Family S3 = thorough ? famT(2, 2, {0, 1}, {0, 1}, {0, 1, 2, 3, 4}, {0, 2, 3, 4}) : famT(2, 2, {0, 1}, {0, 1}, {0, 1, 2, 3, 4}, {0, 3});
    S3.offsets = {0};
+   if(want("names"))
    {
       std::vector<RTCfg> cfgs;
-      for(int names = 0; names < 2; ++names) for(int ints = 0; ints < 3; ++ints) for(int v = 0; v < 8; ++v)
+      for(int names = 0; names < 3; ++names) for(int ints = 0; ints < 3; ++ints) for(int v = 0; v < 8; ++v)
             {
                if(names == 0 && ints == 0) continue;      // covered by the structural phase
                RTCfg c = base8(v); c.names = names; c.ints = ints; cfgs.push_back(c);
@@ -1100,8 +1213,9 @@ int main(int argc, char** argv)
       [&](uint64_t, uint64_t sub) { return "@" + cfgs[sub % cfgs.size()].tag(); });
    }
    // value maps (decimal fractions, 16-digit integers, 1e-7 ..., exact rationals with 30-digit numerators)
-   Family S4 = thorough ? famT(2, 2, {0, 1, -1}, {0, 1, -1}, {0, 2, 3, 4}, {0, 1, 2, 3}) : famT(2, 2, {0, 1}, {0, 1, -1}, {0, 2, 3, 4}, {0, 1, 2, 3});
+   Family S4 = thorough ? famT(2, 2, {0, 1, -1}, {0, 1, -1}, {0, 2, 3, 4}, {0, 1, 2, 3}) : famT(2, 2, {0, 1, -1}, {0, 1}, {0, 3}, {0, 2, 3});
    S4.offsets = {0};
+   if(want("value maps"))
    {
       std::vector<RTCfg> cfgs;
       for(int vm = 1; vm <= 3; ++vm) for(int v = 0; v < 8; ++v) { RTCfg c = base8(v); c.vm = vm; if(c.wzo) continue; cfgs.push_back(c); }
@@ -1119,9 +1233,11 @@ int main(int argc, char** argv)
    // persistently scaled LP, written unscaled and scaled (real mode only)
    Family S5 = famT(2, 2, {0, 1, -1}, {0, 1}, {0, 3}, {0, 2, 3});
    S5.offsets = {0};
+   if(want("scaled"))
    {
       std::vector<RTCfg> cfgs;
-      for(int sc = 1; sc <= 2; ++sc) for(int fmt = 0; fmt < 2; ++fmt) for(int vm : {3, 2}) { RTCfg c; c.fmt = fmt; c.scale = sc; c.vm = vm; cfgs.push_back(c); }
+      // MPS prints 15 decimals: only the pure power-of-two data (vm 3) keeps every scaled value exactly printable
+      for(int sc = 1; sc <= 2; ++sc) for(int fmt = 0; fmt < 2; ++fmt) for(int vm : {3, 2}) { if(fmt == 1 && sc == 2 && vm == 2) continue; RTCfg c; c.fmt = fmt; c.scale = sc; c.vm = vm; cfgs.push_back(c); }
       rep.phase("round trips: persistently scaled LP, unscale on/off", S5.size(), [&](uint64_t idx, int, Ctx & c) -> uint64_t
       {
          RTCase k;
@@ -1134,7 +1250,8 @@ int main(int argc, char** argv)
       [&](uint64_t, uint64_t sub) { return "@" + cfgs[sub % cfgs.size()].tag(); });
    }
    // wide rows (more than five entries per line)
-   rep.phase("round trips: 7-column LPs (continuation lines)", NWIDE, [&](uint64_t idx, int, Ctx & c) -> uint64_t
+   if(want("7-column"))
+   rep.phase("round trips: 7-column LPs (continuation lines)", thorough ? NWIDE : 2187ULL * 3, [&](uint64_t idx, int, Ctx & c) -> uint64_t
    {
       RTCase k;
       k.base = wide_lp(idx);
@@ -1144,6 +1261,7 @@ int main(int argc, char** argv)
       return h;
    }, [&](uint64_t idx, uint64_t sub) { RTCase k; k.base = wide_lp(idx); k.cfg = base8((int)sub); k.cfg.names = (idx & 1); return rt_case(k); }, o, rtsfx);
    // numerics: every slot (and every pair of slots) x every value
+   if(want("numerics"))
    {
       uint64_t singles = (uint64_t)NSLOT * NNUMV, pairs = (uint64_t)NSLOT * NSLOT * NNUMV * NNUMV;
       auto mk = [&](uint64_t idx, TinyLP & lp) -> bool
@@ -1172,9 +1290,10 @@ int main(int argc, char** argv)
       }, [&](uint64_t idx, uint64_t sub) { RTCase k; mk(idx, k.base); k.cfg = base8((int)sub); return rt_case(k); }, o, rtsfx);
    }
    // dual writer
+   if(want("dual"))
    {
-      const Family& DF = S1;
-      rep.phase("dual writer: family Q x {LP,MPS} x wzo", DF.size(), [&](uint64_t idx, int, Ctx & c) -> uint64_t
+      const Family& DF = thorough ? S1 : S0;
+      rep.phase(std::string("dual writer: ") + (thorough ? "family Q" : "quick structural family") + " x {LP,MPS} x wzo", DF.size(), [&](uint64_t idx, int, Ctx & c) -> uint64_t
       {
          TinyLP lp;
          if(!DF.get(idx, lp)) return 0;
@@ -1184,7 +1303,7 @@ int main(int argc, char** argv)
       }, [&](uint64_t idx, uint64_t sub) { TinyLP lp; DF.get(idx, lp); return "D|fmt=" + std::to_string(sub & 1) + ",wzo=" + std::to_string((sub >> 1) & 1) + "|" + lp.str(); }, o,
       [&](uint64_t, uint64_t sub) { return std::string("@dual,") + ((sub & 1) ? "MPS" : "LP"); });
    }
-   if(thorough)
+   if(thorough && want("T(3"))
    {
       // larger matrices: T(3,2) and T(2,3) with reduced menus (three-entry columns: MPS pair + single records)
       Family T32 = famT(3, 2, {0, 1, -1}, {0, 1}, {0, 1, 3}, {0, 2, 3}, 6);
